@@ -137,14 +137,41 @@ def obj_free(t):
   return not is_node(t) or (t['k'] != 'obj' and all(obj_free(c) for _, c in t['items']))
 
 
+def is_missing(v):
+  return isinstance(v, dict) and bool(v.get('missing'))
+
+
 def mirror_write(node, key, v):
-  for it in node['items']:
+  """-> did the write change anything (an update is reported)?"""
+  for i, it in enumerate(node['items']):
     if it[0] == key:
+      if is_missing(v):
+        if node['k'] == 'list':
+          if is_missing(it[1]):
+            return False
+          it[1] = MISSING            # a placeholder, dropped by the list's change handler (if it runs)
+        else:
+          del node['items'][i]
+        return True
+      same = (not is_node(it[1]) and not is_node(v) and not is_missing(it[1]) and it[1] == v and type(it[1]) == type(v))
       it[1] = v
-      return
+      return not same
+  if is_missing(v):
+    return False
   if node['k'] == 'list':
     key = len(node['items'])
   node['items'].append([key, v])
+  return True
+
+
+def purge_chains(t, paths):
+  """What the change handlers of the lists on the way to the updated nodes do: drop MISSING_VALUE
+  placeholders and re-index (deepest nodes first: the keys of `paths` are the ones before the purge)."""
+  prefixes = {tuple(p[:i]) for p in paths for i in range(len(p) + 1)}
+  for pre in sorted(prefixes, key=len, reverse=True):
+    n = get_at(t, list(pre))
+    if is_node(n) and n['k'] == 'list' and any(is_missing(v) for _, v in n['items']):
+      n['items'] = [[i, v] for i, v in enumerate(v for _, v in n['items'] if not is_missing(v))]
 
 
 def mirror(t, step):
@@ -154,6 +181,22 @@ def mirror(t, step):
   node = get_at(t, step['recv'])
   c = step['call']
   n = c['name']
+  notified = bool(step.get('notify', True)) and not c.get('skip') and n != 'update'
+  if n == 'rebind':
+    pairs = c['pairs']
+    if node['k'] == 'list':       # List._sym_rebind applies the pairs in descending path order
+      pairs = sorted(pairs, key=lambda pv: key_cmp_tuple(pv[0]), reverse=True)
+    changed = [mirror_write(get_at(node, p[:-1]), p[-1], v) for p, v in pairs]
+    if notified and any(changed):
+      purge_chains(t, [step['recv'] + p[:-1] for (p, _), ch in zip(pairs, changed) if ch])
+    return
+  before = json.dumps(node)
+  _mirror_call(node, c, n)
+  if notified and json.dumps(node) != before:
+    purge_chains(t, [step['recv']])
+
+
+def _mirror_call(node, c, n):
   if n == 'setkey':
     mirror_write(node, c['key'], c['v'])
   elif n == 'delkey':
@@ -379,6 +422,17 @@ def facts(n, names=None):
   }
 
 
+def has_placeholder(root):
+  """Does a pg.List of the tree hold a MISSING_VALUE placeholder (left by a silent rebind that deleted
+  an item: known finding C02-F03)? Such a tree does not survive the JSON round trip that serves as the
+  reference for "fresh computation"; its reads are still compared with the model."""
+  import pyglove as pg
+  for _, n in sym_nodes(root):
+    if isinstance(n, pg.List) and any(pg.MISSING_VALUE == v and not isinstance(v, pg.Symbolic) for v in n.sym_values()):
+      return True
+  return False
+
+
 def read_all(root):
   """Reads every fact of every node (filling the memoised values). -> [(path, facts)]"""
   return [(p, facts(n)) for p, n in sym_nodes(root)]
@@ -542,6 +596,7 @@ class Gen:
     self.r = rng
     self.next_id = 1
     self.no_obj = False
+    self.deletes = False
 
   def atom(self):
     r = self.r
@@ -689,7 +744,10 @@ class Gen:
       if any(loc[:len(q)] == q or q[:len(loc)] == loc for q in seen):
         continue
       seen.append(loc)
-      pairs.append([list(loc), self.value(old)])
+      if self.deletes and old is not None and p['k'] in ('dict', 'list') and r.chance(0.35):
+        pairs.append([list(loc), MISSING])        # rebind(path -> MISSING_VALUE) deletes
+      else:
+        pairs.append([list(loc), self.value(old)])
     if not pairs:
       k, old = self.target(node)
       if k is None:
@@ -703,6 +761,7 @@ class Gen:
     r = self.r
     self.next_id = 1
     self.no_obj = r.chance(0.4)
+    self.deletes = r.chance(0.3)
     t = self.tree(r.randint(1, 3), None, r.choice([0.3, 0.6, 1.0]))
     shadow = json.loads(json.dumps(t))
     steps = []
@@ -717,6 +776,8 @@ class Gen:
           step['notify'] = True        # notify-off + shrinking slice leaves MISSING placeholders (C02-F03)
       steps.append(step)
       mirror(shadow, json.loads(json.dumps(step)))
+      if any(is_node(n_) and n_['k'] == 'list' and any(is_missing(v_) for _, v_ in n_['items']) for _, n_ in all_nodes(shadow)):
+        break     # a silent rebind left a placeholder in a list (C02-F03): what other list calls do with it is C02's
     return {'tree': t, 'steps': steps}
 
 
@@ -806,6 +867,8 @@ class C09(Prop):
     for c in self.read_cases(rng, 700 if tier == 'quick' else 14000):
       yield c
     for c in self.typed_read_cases(rng, 500 if tier == 'quick' else 10000):
+      yield c
+    for c in self.silent_delete_cases(rng, 300 if tier == 'quick' else 6000):
       yield c
     for c in self.facts_cases(rng, 150 if tier == 'quick' else 3000):
       yield c
@@ -946,6 +1009,52 @@ class C09(Prop):
       steps.append({'read': [[p, list(FACTS)] for p, _ in all_nodes(shadow)]})
       yield {'tree': t, 'steps': steps, 'reads': 'chosen'}
 
+  def silent_delete_cases(self, rng, n):
+    """Lists WITH an onchange_callback (and subscribing ancestors) under rebinds that delete items
+    (path -> MISSING_VALUE), single and batched, issued on the list or on an ancestor: silent
+    (skip_notification=True, or inside notify_on_change(False)) -- nobody may hear anything, an
+    invocation with an empty dict counts -- and notified ones, followed by further calls."""
+    g = Gen(rng)
+    made = 0
+    for _ in range(n * 6):
+      if made >= n:
+        break
+      g.next_id = 1
+      g.no_obj = rng.chance(0.5)
+      g.deletes = False
+      t = g.tree(rng.randint(1, 3), rng.choice(['dict', 'list', 'obj']), 1.0)
+      lists = [(p, x) for p, x in all_nodes(t) if x['k'] == 'list' and x['items']]
+      if not lists:
+        continue
+      shadow = json.loads(json.dumps(t))
+      steps = []
+      for i in range(rng.randint(1, 3)):
+        lists = [(p, x) for p, x in all_nodes(shadow) if x['k'] == 'list' and x['items']]
+        if not lists:
+          break
+        lpath, l = rng.choice(lists)
+        cut = rng.randint(0, len(lpath))
+        recv, rel = lpath[:cut], lpath[cut:]
+        idxs = rng.sample(range(len(l['items'])), rng.randint(1, min(2, len(l['items']))))
+        pairs = [[rel + [j], MISSING] for j in sorted(idxs)]
+        rnode = get_at(shadow, recv)
+        if rng.chance(0.4):
+          k, old = g.target(rnode)
+          if k is not None and all(([k] != p_[:1]) for p_, _ in pairs):
+            pairs.append([[k], g.value(old)])
+        if rnode['k'] == 'list':
+          pairs.sort(key=lambda pv: key_cmp_tuple(pv[0]))
+        mode = rng.below(3)
+        call = {'name': 'rebind', 'pairs': pairs}
+        step = {'recv': recv, 'notify': mode != 1, 'call': call}
+        if mode == 0:
+          call['skip'] = True
+        steps.append(step)
+        mirror(shadow, json.loads(json.dumps(step)))
+      if steps:
+        made += 1
+        yield {'tree': t, 'steps': steps}
+
   def facts_cases(self, rng, n):
     g = Gen(rng)
     for _ in range(n):
@@ -1085,10 +1194,11 @@ class C09(Prop):
                      'bound': bound})
         continue
       got = read_all(root)
-      want = recomputed(root)
+      placeholders = has_placeholder(root)
+      want = [] if placeholders else recomputed(root)
       stale = []
       wmap = {json.dumps(p): f for p, f in want}
-      for p, f in got:
+      for p, f in ([] if placeholders else got):
         w = wmap.get(json.dumps(p))
         if w is None:
           stale.append([p, ['<node missing in copy>']])
@@ -1106,7 +1216,8 @@ class C09(Prop):
     """A `read` step: the chosen facts of the chosen nodes, through the public accessors, compared with
     the same facts of a JSON round-tripped copy (a fresh computation on the current contents)."""
     import pyglove as pg
-    copy = pg.from_json(pg.to_json(root), allow_partial=True)
+    placeholders = has_placeholder(root)
+    copy = root if placeholders else pg.from_json(pg.to_json(root), allow_partial=True)
     stale, reads = [], []
     for path, names in step['read']:
       try:
@@ -1115,7 +1226,8 @@ class C09(Prop):
         continue
       if not isinstance(n, pg.Symbolic):
         continue
-      got, want = facts(n, names), facts(c, names)
+      got = facts(n, names)
+      want = got if placeholders else facts(c, names)
       bad = sorted(k for k in got if got[k] != want[k])
       if bad:
         stale.append([path, bad])
@@ -1225,6 +1337,33 @@ class C09(Prop):
     if name in LIST_EDITS or name in LIST_MOVES or (name == 'clear' and get_at(tree, step['recv'])['k'] == 'list'):
       f = self.oracle_list_edit(tree, step, o, events, sub_nodes)
       return f or self.oracle_order(events, sub_nodes)
+    # rebind(path -> MISSING_VALUE) on List items: the items behind a deleted one move up when the list's
+    # handler drops the placeholder; the report names the position the item had before the call
+    deleted = []
+    if name == 'rebind':
+      for p_, v_ in step['call']['pairs']:
+        par = get_at(tree, step['recv'] + p_[:-1])
+        if is_missing(v_) and is_node(par) and par['k'] == 'list':
+          deleted.append(step['recv'] + p_)
+    # ... and so do the items behind a placeholder that an earlier silent rebind left in a list on the way
+    moved = bool(deleted)
+    for i in range(len(step['recv']) + 1):
+      n_ = get_at(tree, step['recv'][:i])
+      if is_node(n_) and n_['k'] == 'list' and any(is_missing(v_) for _, v_ in n_['items']):
+        moved = True
+    if name == 'rebind':
+      for p_, _ in step['call']['pairs']:
+        for i in range(len(p_)):
+          n_ = get_at(tree, step['recv'] + p_[:i])
+          if is_node(n_) and n_['k'] == 'list' and any(is_missing(v_) for _, v_ in n_['items']):
+            moved = True
+    if moved:
+      want_tree = json.loads(json.dumps(tree))
+      mirror(want_tree, json.loads(json.dumps(step)))
+      if canon_json(want_tree) != o['value']:
+        return {'signature': 'rebind-delete-result',
+                'what': '%s left %s, expected %s' % (json.dumps(step['call'])[:150], json.dumps(o['value'])[:250],
+                                                     json.dumps(canon_json(want_tree))[:250])}
     # payload: true old / new values at the reported locations
     reported = {}
     for e in events:
@@ -1233,7 +1372,13 @@ class C09(Prop):
       for rel, old, new in e['entries']:
         loc = rp + rel
         locs.append(loc)
-        if canon_at(o['value'], loc) != new or canon_at(o['pre'], loc) != old:
+        if loc in deleted:
+          ok_new = new == MISSING
+        elif moved:
+          ok_new = True          # positions behind a deleted item have moved: the result is checked as a whole
+        else:
+          ok_new = canon_at(o['value'], loc) == new
+        if not ok_new or canon_at(o['pre'], loc) != old:
           return {'signature': 'wrong-payload',
                   'what': 'receiver %s at %s got (%s: %s -> %s) but the tree has %s -> %s there' % (
                       e['recv'], rp, rel, old, new, canon_at(o['pre'], loc), canon_at(o['value'], loc))}
@@ -1242,7 +1387,7 @@ class C09(Prop):
     changed = [c[0] for c in _diff(o['pre'], o['value'])]
     written = self.written_locations(tree, step, o)
     for nid, rp in sub_nodes.items():
-      below = [l for l in written if l[:len(rp)] == rp and len(l) > len(rp) and self.really_written(o, l)]
+      below = [l for l in written if l[:len(rp)] == rp and len(l) > len(rp) and self.really_written(o, l, tree, step, deleted, moved)]
       got = reported.get(nid)
       if below and got is None:
         return {'signature': 'missing-event', 'what': 'subscribing node %s at %s got no event for %s' % (nid, rp, below)}
@@ -1250,7 +1395,7 @@ class C09(Prop):
         if sorted(map(json.dumps, got)) != sorted(map(json.dumps, below)):
           return {'signature': 'wrong-locations',
                   'what': 'node %s at %s was told %s, written locations below it: %s' % (nid, rp, got, below)}
-    for c in changed:
+    for c in ([] if moved else changed):
       if not any(c[:len(w)] == w for w in written):
         return {'signature': 'unreported-change', 'what': 'location %s changed but was not written by the call' % c}
     return self.oracle_order(events, sub_nodes)
@@ -1310,8 +1455,16 @@ class C09(Prop):
                     json.dumps(c)[:120], recv, nid, rp, json.dumps(mine)[:300], exp[:6])}
     return None
 
-  def really_written(self, o, loc):
+  def really_written(self, o, loc, tree=None, step=None, deleted=(), moved=False):
     """A write of an identical atom (`old is new`) produces no update."""
+    if moved and step['call']['name'] == 'rebind':
+      # decided on the values handed in (the positions of the result have moved)
+      old = canon_at(o['pre'], loc)
+      v = [v_ for p_, v_ in step['call']['pairs'] if step['recv'] + p_ == loc][0]
+      if is_missing(v):
+        return old != MISSING
+      new = canon_json(v)
+      return not (old == new and not isinstance(new, list))
     old, new = canon_at(o['pre'], loc), canon_at(o['value'], loc)
     return not (old == new and not isinstance(new, list))
 
